@@ -12,6 +12,7 @@ e (added)  options given to Manifold.compute reach _run_compute under their own 
 e (round 3)  the measured drift is max|C_i - C_0|/|C_0| of the Jacobi constant (exact on-axis histories: up, down, mixed, negative, vanishing reference)
 b-pipeline (round 3)  two manifold services never hold the same (stateful) stability pipeline object
 b (round 4)  the cleaning step keeps the eigen-solver order and the value/vector pairing (non-monotone moduli)
+b (round 5)  the engine path that really runs (_invoke_backend; _LinalgBackend.run is dead code) hands matrix, delta, tol, system type to the backend and labels the six outputs
 """
 from __future__ import annotations
 
@@ -366,8 +367,59 @@ def _b_classification(chk):
     chk.count("functions partially evaluated", 2)
 
 
+def _b_engine_invoke(chk, rule="C12.b"):
+    """The engine (the path that really runs: _LinearStabilityEngine._invoke_backend; _LinalgBackend.run is not called by it) hands the
+    request's matrix AND its classification band delta / pairing tolerance tol to the backend, and files the six outputs under their
+    own names.  A dropped delta silently classifies with the backend's signature default (1e-4 instead of the caller's 1e-6)."""
+    ENG_ = "hiten.algorithms.linalg.engine"
+    emod, ecls = ri.find_def(ENG_, "_LinearStabilityEngine")
+    ip = Interp()
+    pt = ip.module_value(LTYPES, "_ProblemType")
+    tags = {k: sp.Symbol(k) for k in ("SN", "UN", "CN", "WS", "WU", "WC")}
+    A = np.empty((2, 2), dtype=object)
+    A.fill(sp.Symbol("a"))
+    seen = {}
+
+    def eig(*a, **k):
+        seen["eig"] = (a, k)
+        return tuple(tags[k_] for k_ in ("SN", "UN", "CN", "WS", "WU", "WC"))
+
+    def nu(*a, **k):
+        seen["nu"] = (a, k)
+        return (sp.Symbol("NU"), sp.Symbol("EIGVALS"), sp.Symbol("EIGVECS"))
+
+    backend = SymObj(None, {"eigenvalue_decomposition": eig, "stability_indices": nu, "system_type": None}, "backend")
+    eng = SymObj(ClassRef(emod, ecls), {"backend": backend, "_backend": backend}, "engine")
+    req = SymObj(None, {"system_type": sp.Symbol("SYSTEM_TYPE"), "matrix": A, "metadata": {}, "delta": sp.Symbol("DELTA"), "tol": sp.Symbol("TOL"),
+                        "problem_type": ip.getattr(pt, "ALL")}, "request")
+    ipx = Interp(overrides={"EigenDecompositionResults": lambda ip_, a, k: SymObj(None, dict(zip(("stable", "unstable", "center", "Ws", "Wu", "Wc", "nu", "eigvals", "eigvecs"), a), **k), "results"),
+                            "LinalgBackendResponse": lambda ip_, a, k: SymObj(None, dict(k), "response")})
+    try:
+        resp = ipx.apply(ipx.getattr(eng, "_invoke_backend"), [SymObj(None, {"request": req}, "call")], {})
+    except OutsideFragment as exc:
+        raise AnalysisError(f"_LinearStabilityEngine._invoke_backend outside fragment: {exc}")
+    chk.count("functions partially evaluated")
+    ea, ek = seen.get("eig", ((), {}))
+    delta = ek.get("delta", ea[1] if len(ea) > 1 else None)
+    chk.check(len(ea) >= 1 and ea[0] is A and delta == sp.Symbol("DELTA"), rule, f"{ENG_}::_LinearStabilityEngine._invoke_backend[delta]",
+              f"the classification is run with delta = {delta} instead of the request's (the options' band; the backend's own default applies when none is passed)",
+              sample="eigenvalue_decomposition(request.matrix, request.delta)")
+    na, nk = seen.get("nu", ((), {}))
+    tol = nk.get("tol", na[1] if len(na) > 1 else None)
+    chk.check(len(na) >= 1 and na[0] is A and tol == sp.Symbol("TOL"), rule, f"{ENG_}::_LinearStabilityEngine._invoke_backend[tol]",
+              f"the stability indices are computed with tol = {tol} instead of the request's", sample="stability_indices(request.matrix, request.tol)")
+    chk.check(backend.attrs.get("system_type") == sp.Symbol("SYSTEM_TYPE"), rule, f"{ENG_}::_LinearStabilityEngine._invoke_backend[system type]",
+              "the backend is not switched to the request's system type (continuous / discrete classification)", sample="backend.system_type = request.system_type")
+    res = resp.attrs.get("results") if isinstance(resp, SymObj) else None
+    want = {"stable": "SN", "unstable": "UN", "center": "CN", "Ws": "WS", "Wu": "WU", "Wc": "WC"}
+    bad = {f: (res.attrs.get(f) if isinstance(res, SymObj) else None) for f, t in want.items() if not (isinstance(res, SymObj) and res.attrs.get(f) == tags[t])}
+    chk.check(not bad, rule, f"{ENG_}::_LinearStabilityEngine._invoke_backend[results]", f"result fields mislabelled: {bad}",
+              sample="results.stable/unstable/center/Ws/Wu/Wc <- (sn,un,cn,Ws,Wu,Wc)")
+
+
 def _b_pipeline_orders(chk):
     """backend.run -> results fields; StabilityPipeline.eigenvalues/eigenvectors tuple orders."""
+    _b_engine_invoke(chk)
     ip = Interp()
     pt = ip.module_value(LTYPES, "_ProblemType")
     tags = {k: sp.Symbol(k) for k in ("SN", "UN", "CN", "WS", "WU", "WC")}
